@@ -567,6 +567,13 @@ macro_rules! c13_ghost_support {
             a.to_vec()
         }
 
+        /// replacement for std::hash::RandomState::new (which asks the OS for random SipHash
+        /// keys, leaving every HashMap bucket index symbolic): fixed keys.  A HashMap's
+        /// observable behaviour does not depend on the keys.
+        pub(crate) fn fixed_random_state() -> ::std::hash::RandomState {
+            unsafe { ::core::mem::transmute::<[u64; 2], ::std::hash::RandomState>([0u64; 2]) }
+        }
+
         /// no-op replacement for zeroize::optimization_barrier (inline asm is unsupported)
         pub(crate) fn noop_barrier<T: ?Sized>(_val: &T) {}
 
@@ -724,6 +731,7 @@ fn check_epoch_secrets(
 
 #[kani::proof]
 #[kani::stub(zeroize::optimization_barrier, noop_barrier)]
+#[kani::stub(std::hash::RandomState::new, fixed_random_state)]
 #[kani::unwind(16)]
 fn c13_from_epoch_secret() {
     let p = GhostProvider::new();
